@@ -204,6 +204,7 @@ type Engine struct {
 
 type HarnessCfg struct {
 	Name      string         `json:"name"`
+	Fn        string         `json:"fn"`
 	Pkg       string         `json:"pkg"`
 	Unwind    int            `json:"unwind"`
 	Params    map[string]int `json:"params"`
